@@ -18,6 +18,7 @@ from __future__ import annotations
 
 import os
 import sys
+import threading
 
 sys.path.insert(0, os.path.dirname(os.path.dirname(os.path.abspath(__file__))))
 
@@ -99,12 +100,36 @@ class ModelLRU:
 # Key objects: the scenario names keys by small integers; the objects handed to the cache are made
 # afresh for every operation in the run's key style, so that two operations on "the same key" use
 # EQUAL BUT DISTINCT objects (a map compares keys with ==, never with `is`).
+class HK:
+    """A key whose __hash__ and __eq__ are Python code: the interpreter may switch threads inside
+    them, i.e. in the middle of whatever dictionary operation is hashing or comparing the key."""
+    __slots__ = ("k",)
+    hook = None          # set per run: called at every hash / comparison (a pre-emption point)
+
+    def __init__(self, k):
+        self.k = k
+
+    def __hash__(self):
+        if HK.hook is not None:
+            HK.hook("key.hash")
+        return hash(self.k)
+
+    def __eq__(self, other):
+        if HK.hook is not None:
+            HK.hook("key.eq")
+        return isinstance(other, HK) and other.k == self.k
+
+    def __repr__(self):
+        return "HK(%r)" % self.k
+
+
 KEY_STYLES = {
     "int": (lambda k: k, lambda x: x),                                   # small ints: interned, identical
     "tuple": (lambda k: tuple([k]), lambda x: x[0]),
     "str": (lambda k: "key-%d" % k, lambda x: int(x[4:])),
     "float": (lambda k: float(k) + 0.0, lambda x: int(x)),
     "bigint": (lambda k: int("1000000") + k, lambda x: x - 1000000),
+    "hashed": (lambda k: HK(k), lambda x: x.k),
 }
 _KEYS = {"style": "int", "pool": {}, "n": 0, "seed": 0}
 
@@ -441,6 +466,11 @@ class C24:
                 hist.append({"t": "pre", "inv": sim.next_seq(), "ret": sim.next_seq(), "op": op, "out": out})
             state["cache"] = cache
             SimLock.sim = sim
+            if sc.get("key_style") == "hashed":
+                def key_hook(site):
+                    if sim.cur is not None and threading.current_thread() is sim.cur.thread:
+                        sim.point(site)
+                HK.hook = key_hook
             listing_overlap = [0]
             active_listings = [0]
             switch_inside = [0]
@@ -515,11 +545,13 @@ class C24:
                 sim.spawn(f"c{th['id']}", client(th["id"], th["ops"]))
             sim.run()
             SimLock.sim = None
+            HK.hook = None
             state["cache"] = None
             del keep[:]
         finally:
             lru_mod.Lock = saved
             SimLock.sim = None
+            HK.hook = None
 
         res["steps"] = sim.steps
         res["isig"] = digest(sim.trace)
